@@ -10,6 +10,8 @@ import KojenVerif.Model.EmitCs
 import KojenVerif.Model.EmitSml
 import KojenVerif.Model.PyQueue
 import KojenVerif.Model.Conc
+import KojenVerif.Model.Engine
+import KojenVerif.Model.EngineSpec
 /-
   Line-protocol driver: one JSON object per input line, one JSON object per output line.
   Run with `lake env lean --run Driver/Main.lean`.  The harness pipes the same inputs to the
@@ -142,6 +144,150 @@ def jCb : Table.Cb → Json
   | .action a e => Json.arr #[Json.str "action", jStr a, jStr e]
   | .entry s => Json.arr #[Json.str "entry", jStr s]
   | .noTransition => Json.arr #[Json.str "notransition"]
+
+
+/-- `[[a, b], …]` of strings -/
+def asStrPairs (j : Json) : Except String (List (Str × Str)) := do
+  let a ← j.getArr?
+  a.toList.mapM (fun p => do
+    let pa ← p.getArr?
+    match pa.toList with
+    | [k, v] => do pure (← asStr k, ← asStr v)
+    | _ => throw "pair expected")
+
+def missing : Str := toStr "<<MISSING-IN-ENV>>"
+
+/-- the callbacks of the engine as finite tables; a JSON `null` value = the back end raises;
+    a name that is not in the interface gets what the generator returns for unknown names -/
+def asOptStr (j : Json) : Except String (Option Str) :=
+  match j with
+  | Json.null => pure none
+  | _ => do pure (some (← asStr j))
+
+def parseEnv (j : Json) : Except String Engine.Env := do
+  let arr (k : String) : Except String (List Json) := do pure (← (← j.getObjVal? k).getArr?).toList
+  let sigT ← (← arr "sig").mapM (fun x => do
+    let a ← x.getArr?
+    match a.toList with
+    | [n, wd, v] => do pure ((← asStr n, ← wd.getBool?), ← asOptStr v)
+    | _ => throw "sig")
+  let miT ← (← arr "memberInst").mapM (fun x => do
+    let a ← x.getArr?
+    match a.toList with
+    | [n, tc, ip, inst, v] => do pure ((← asStr n, ← tc.getNat?, ← ip.getBool?, ← asStr inst), ← asOptStr v)
+    | _ => throw "memberInst")
+  let mdT ← (← arr "memberDecl").mapM (fun x => do
+    let a ← x.getArr?
+    match a.toList with
+    | [n, tc, pk, v] => do pure ((← asStr n, ← tc.getNat?, ← pk.getBool?), ← asOptStr v)
+    | _ => throw "memberDecl")
+  let agT ← (← arr "aggInit").mapM (fun x => do
+    let a ← x.getArr?
+    match a.toList with
+    | [n, v] => do pure (← asStr n, ← asOptStr v)
+    | _ => throw "aggInit")
+  let docT ← asStrPairs (← j.getObjVal? "doc")
+  let idT ← asStrPairs (← j.getObjVal? "msgId")
+  let memT ← (← arr "members").mapM (fun x => do
+    let a ← x.getArr?
+    match a.toList with
+    | [n, ms] => do
+      let l ← (← ms.getArr?).toList.mapM (fun m => do
+        let ma ← m.getArr?
+        match ma.toList with
+        | [t, mn, ip] => do pure (← asStr t, ← asStr mn, ← ip.getBool?)
+        | _ => throw "member")
+      pure (← asStr n, l)
+    | _ => throw "members")
+  let aggDefault ← asOptStr (← j.getObjVal? "aggDefault")
+  let known (n : Str) : Bool := sigT.any (fun e => e.1.1 == n)
+  pure {
+    sig := fun n wd => match sigT.find? (fun e => e.1 == (n, wd)) with | some e => e.2 | none => some []
+    memberInst := fun n tc ip inst => match miT.find? (fun e => e.1 == (n, tc, ip, inst)) with
+      | some e => e.2 | none => if known n then some missing else some []
+    memberDecl := fun n tc pk => match mdT.find? (fun e => e.1 == (n, tc, pk)) with
+      | some e => e.2 | none => if known n then some missing else some []
+    aggInit := fun n => match agT.find? (fun e => e.1 == n) with | some e => e.2 | none => aggDefault
+    doc := fun n => (docT.find? (fun e => e.1 == n)).map (·.2)
+    members := fun n => (memT.find? (fun e => e.1 == n)).map (·.2)
+    msgId := fun n => (idT.find? (fun e => e.1 == n)).map (·.2) }
+
+def emptyEnv : Engine.Env :=
+  { sig := fun _ _ => some [], memberInst := fun _ _ _ _ => some [], memberDecl := fun _ _ _ => some [], aggInit := fun _ => some [],
+    doc := fun _ => none, members := fun _ => none, msgId := fun _ => none }
+
+def jOptLines : Option (List Str) → Json
+  | some ls => jStrs ls
+  | none => Json.null
+
+
+def parseSeg (j : Json) : Except String Spec.Seg := do
+  let a ← j.getArr?
+  match a.toList with
+  | [k, t] => do
+    match (← k.getStr?) with
+    | "lit" => pure (.lit (← asStr t))
+    | "tag" => pure (.tag (← asStr t) none)
+    | o => throw s!"seg {o}"
+  | [_, n, d] => do pure (.tag (← asStr n) (some (← asStr d)))
+  | _ => throw "seg"
+
+def parseBItem (j : Json) : Except String Spec.BItem := do
+  match (← (← j.getObjVal? "k").getStr?) with
+  | "line" => do
+    let segs ← (← (← j.getObjVal? "segs").getArr?).toList.mapM parseSeg
+    pure (.line segs)
+  | "blank" => do pure (.blank (← getStr j "text"))
+  | o => throw s!"body item {o}"
+
+def parseBody (j : Json) : Except String (List Spec.BItem) := do
+  (← j.getArr?).toList.mapM parseBItem
+
+def parseKind (s : String) : Except String Spec.Kind :=
+  match s with
+  | "PS" => pure .ps | "PE" => pure .pe | "PA" => pure .pa | "PG" => pure .pg | "PASIG" => pure .pasig
+  | "STRUCT" => pure .struct | "PROTOMSG" => pure .protomsg | "MSG" => pure .msg
+  | o => throw s!"kind {o}"
+
+def parsePetItem (j : Json) : Except String Spec.PetItem := do
+  match (← (← j.getObjVal? "k").getStr?) with
+  | "pgt" => do pure (.pgt (← getStr j "ws") (← parseBody (← j.getObjVal? "body")))
+  | _ => do pure (.b (← parseBItem j))
+
+def parsePstItem (j : Json) : Except String Spec.PstItem := do
+  match (← (← j.getObjVal? "k").getStr?) with
+  | "pet" => do pure (.pet (← getStr j "ws") (← (← (← j.getObjVal? "body").getArr?).toList.mapM parsePetItem))
+  | _ => do pure (.b (← parseBItem j))
+
+def parseItem (j : Json) : Except String Spec.Item := do
+  match (← (← j.getObjVal? "k").getStr?) with
+  | "block" => do pure (.block (← parseKind (← (← j.getObjVal? "kind").getStr?)) (← getStr j "ws") (← parseBody (← j.getObjVal? "body")))
+  | "pst" => do pure (.pst (← getStr j "ws") (← (← (← j.getObjVal? "body").getArr?).toList.mapM parsePstItem))
+  | "if" => do
+    let brs ← (← (← j.getObjVal? "branches").getArr?).toList.mapM (fun b => do
+      let a ← b.getArr?
+      match a.toList with
+      | [t, body] => do pure (← asStr t, ← parseBody body)
+      | _ => throw "branch")
+    let els ← match j.getObjVal? "else" with
+      | .ok Json.null => pure none
+      | .ok e => do pure (some (← parseBody e))
+      | .error _ => pure none
+    pure (.cond (← getStr j "ws") brs els)
+  | "for" => do
+    let pj ← j.getObjVal? "sparam"
+    let p ← match (← (← pj.getObjVal? "t").getStr?) with
+      | "list" => do pure (Spec.ForParam.list (← getStr pj "raw"))
+      | "count" => do pure (Spec.ForParam.count (← getStr pj "raw"))
+      | "tag" => do
+        let d ← match pj.getObjVal? "dflt" with
+          | .ok Json.null => pure none
+          | .ok e => do pure (some (← asStr e))
+          | .error _ => pure none
+        pure (Spec.ForParam.userTag (← getStr pj "name") d)
+      | o => throw s!"for param {o}"
+    pure (.loop (← getStr j "ws") p (← parseBody (← j.getObjVal? "body")))
+  | _ => do pure (.b (← parseBItem j))
 
 def handle (j : Json) : Except String Json := do
   let cmd ← (← j.getObjVal? "cmd").getStr?
@@ -371,6 +517,74 @@ def handle (j : Json) : Except String Json := do
                       ("all_exited", Json.bool allExited), ("derived_alive", Json.bool r.1.derivedAlive),
                       ("stop_first", Json.bool sf),
                       ("destroyer", Json.str (match r.1.destroyer with | .alive => "alive" | .flagSet => "flagSet" | .woken => "woken" | .joined => "joined" | .destroyed => "destroyed"))])
+  | "engine" => do
+    let env ← parseEnv (← j.getObjVal? "env")
+    let smname ← getStr j "smname"
+    let dict := Engine.smDict smname (← getStr j "ns") (← getStr j "author") (← getStr j "group") (← getStr j "brief")
+                  (← getStr j "dclspc") (← getStr j "pyif") (← getStr j "enums")
+    let fnDict := Engine.fnDictOf smname
+    let t ← parseRows (← j.getObjVal? "tt")
+    let ut ← (← (← j.getObjVal? "userTags").getArr?).toList.mapM (fun x => do
+      let a ← x.getArr?
+      match a.toList with
+      | [k, v, isS] => do pure (← asStr k, ← asStr v, ← isS.getBool?)
+      | _ => throw "userTags")
+    let files ← asPairs (← j.getObjVal? "files")
+    let inp : Engine.GenInput :=
+      { dict := dict, fnDict := fnDict,
+        sm := { table := t, structNames := ← getStrs j "structNames", protoNames := ← getStrs j "protoNames", msgNames := ← getStrs j "msgNames" },
+        userTags := ut.map (fun e => (e.1, e.2.1)),
+        userTagIsStr := fun k => ((ut.find? (fun e => e.1 == k)).map (·.2.2)).getD false }
+    match Engine.generate env inp files with
+    | some cm => pure (Json.mkObj [("ok", Json.bool true), ("files", jPairs cm)])
+    | none => pure (Json.mkObj [("ok", Json.bool false)])
+  | "engfn" => do
+    -- function-level correspondence of the engine's helpers
+    let fn ← (← j.getObjVal? "fn").getStr?
+    match fn with
+    | "tagBodies" => pure (Json.mkObj [("r", jStrs (Engine.tagBodies (← getStr j "a")))])
+    | "hasSpecificTag" => pure (Json.mkObj [("r", Json.bool (Engine.hasSpecificTag (← getStr j "a") (← getStr j "tag")))])
+    | "hasDefault" => pure (Json.mkObj [("r", Json.bool (Engine.hasDefault (← getStr j "a") (← getStr j "delim")))])
+    | "extractDefaultAndTag" =>
+      let r := Engine.extractDefaultAndTag (← getStr j "a") (← getStr j "delim")
+      pure (Json.mkObj [("r", jStrs [r.1, r.2])])
+    | "removeDefault" => pure (Json.mkObj [("r", jStr (Engine.removeDefault (← getStr j "a") (← getStr j "delim")))])
+    | "replaceUserTags" =>
+      pure (Json.mkObj [("r", jStr (Engine.replaceUserTags (← asStrPairs (← j.getObjVal? "dict")) (← getStr j "a")))])
+    | "replaceDefault" => pure (Json.mkObj [("r", jStr (Engine.replaceDefault (← getStr j "a") (← getStr j "b")))])
+    | "snake" => pure (Json.mkObj [("r", jStr (Str.snakeCase (← getStr j "a")))])
+    | "camelSmall" => pure (Json.mkObj [("r", jStr (Str.camelSmall (← getStr j "a")))])
+    | "filterNewlines" => pure (Json.mkObj [("r", jStrs (Engine.filterNewlines (← getStrs j "lines")))])
+    | "doFor" => pure (Json.mkObj [("r", jOptLines (Engine.doFor (← getStrs j "lines")))])
+    | "doUserTags" =>
+      let ut ← (← (← j.getObjVal? "userTags").getArr?).toList.mapM (fun x => do
+        let a ← x.getArr?
+        match a.toList with
+        | [k, v, isS] => do pure (← asStr k, ← asStr v, ← isS.getBool?)
+        | _ => throw "userTags")
+      let lines ← getStrs j "lines"
+      let fd := lines.foldl Engine.forDefaultsStep []
+      pure (Json.mkObj [("r", jOptLines (Engine.doUserTags (ut.map (fun e => (e.1, e.2.1)))
+              (fun k => ((ut.find? (fun e => e.1 == k)).map (·.2.2)).getD false) fd lines))])
+    | o => throw s!"engfn {o}"
+  | "spec" => do
+    -- the reference expander on parsed templates: per file the text as written, and the rendered template
+    let smname ← getStr j "smname"
+    let globals := Engine.smDict smname (← getStr j "ns") (← getStr j "author") (← getStr j "group") (← getStr j "brief")
+                  (← getStr j "dclspc") (← getStr j "pyif") (← getStr j "enums")
+    let t ← parseRows (← j.getObjVal? "tt")
+    let ut ← asStrPairs (← j.getObjVal? "userTags")
+    let m : Spec.Model := { table := t, structNames := ← getStrs j "structNames", protoNames := ← getStrs j "protoNames", msgNames := ← getStrs j "msgNames" }
+    let files ← (← (← j.getObjVal? "files").getArr?).toList.mapM (fun f => do
+      let items ← (← (← f.getObjVal? "items").getArr?).toList.mapM parseItem
+      pure (← getStr f "name", items))
+    let out := files.map (fun f =>
+      Json.mkObj [("name", jStr (Engine.fileName (Engine.fnDictOf smname) f.1)),
+                  ("rendered", jStrs (Spec.renderFile f.2)),
+                  ("text", match Spec.expandFile globals m ut f.2 with
+                    | some ls => jStr (Spec.fileText ls)
+                    | none => Json.null)])
+    pure (Json.mkObj [("files", Json.arr out.toArray)])
   | "runref" => do
     let t ← parseRows (← j.getObjVal? "tt")
     let silent ← getBool j "silent"
